@@ -3486,6 +3486,14 @@ func (ts *TokenStore) authRenew(ctx context.Context, req *logical.Request, d *fr
 
 	req.Auth.Period = role.TokenPeriod
 	req.Auth.ExplicitMaxTTL = role.TokenExplicitMaxTTL
+
+	// A token created against a role may carry an explicit maximum of its
+	// own that is tighter than the role's (requested at creation); it stays
+	// a hard limit on the token's lifetime across renewals.
+	if te.ExplicitMaxTTL > 0 && (req.Auth.ExplicitMaxTTL == 0 || te.ExplicitMaxTTL < req.Auth.ExplicitMaxTTL) {
+		req.Auth.ExplicitMaxTTL = te.ExplicitMaxTTL
+	}
+
 	return &logical.Response{Auth: req.Auth}, nil
 }
 
